@@ -16,7 +16,7 @@ requests and replies
   name <kind> <hexname>                    -> res=ok:<entry> | res=unknown | res=notexact                    must=<0|1>
   pre <flt 0|1> <caps> <fs names> <st names> <det names>
                                            -> res=ok|missing:<hex>|invalid:<sorted names>|badname fs=<sorted names> st=<sorted names> must=<0|1>
-  prer <shape n|r|v|rv [p]> <flt> <caps> <fs names> <st names> <det names>   (scan roots: none | real dir | virtual FS | both)
+  prer <shape n|r|v|rv|c [p]> <flt> <caps> <fs names> <st names> <det names>   (scan roots: none | real dir | virtual FS | both)
                                            -> same reply as pre, plus scan=<ok|prefail|noroot|other> of a real Scan over those roots
   pref <caps> <detector req> <required names>   (one hand-made detector, nothing else enabled)
                                            -> same reply as pre, must=0
@@ -149,14 +149,22 @@ def handle (line : String) : String :=
     -- a trailing p: PathsToExtract is set; Scan refuses specific files with more than one scan root (after the two checks above)
     let paths := shape.endsWith "p" && shape ≠ "p"
     let shape := if paths then String.ofList (shape.toList.dropLast) else shape
-    if shape ≠ "n" ∧ shape ≠ "r" ∧ shape ≠ "v" ∧ shape ≠ "rv" then "bad-op" else
+    if shape ≠ "n" ∧ shape ≠ "r" ∧ shape ≠ "v" ∧ shape ≠ "rv" ∧ shape ≠ "c" ∧ shape ≠ "e" then "bad-op" else
     match boolOf? flt, capsOf? c, namesOf? fsn, namesOf? stn, namesOf? dn with
     | some flt, some c, some fsn, some stn, some dn =>
       match fromNames fsNames fsn, fromNames stNames stn, fromNames detNames dn with
       | .ok fs, .ok st, .ok dets =>
         let f := fun (ps : List Plugin) => if flt then filterByCapabilities ps c else ps
         let must := boolStr flt
+        -- c: ScanContainer supplies exactly one root (the image's file system), whatever the configuration says
         let after := if shape = "n" then "noroot" else if paths && shape = "rv" then "severalroots" else "ok"
+        -- e: an image without layers is refused by ScanContainer before Scan (and its precondition chain) is reached at all
+        if shape = "e" then
+          (match precheck fsNames stNames (f fs) (f st) (f dets) c with
+           | .ok fs' st' => s!"res=ok fs={namesStr fs'} st={namesStr st'} scan=nolayers must={must}"
+           | .missing e => s!"res=missing:{hexE e} fs=- st=- scan=nolayers must={must}"
+           | .invalid bad => s!"res=invalid:{joinWith "," (sortStrs (bad.map hexE))} fs=- st=- scan=nolayers must={must}")
+        else
         match precheck fsNames stNames (f fs) (f st) (f dets) c with
         | .ok fs' st' => s!"res=ok fs={namesStr fs'} st={namesStr st'} scan={after} must={must}"
         | .missing e => s!"res=missing:{hexE e} fs=- st=- scan=prefail must={must}"
